@@ -150,3 +150,40 @@ fn c07_term_name_cap_utf8() {
     core::mem::forget(out);
     core::mem::forget(t);
 }
+
+// ---------------------------------------------------------------------------------------------
+// C01: memoisation test of the closure computation
+// ---------------------------------------------------------------------------------------------
+/// parents_cached() <=> no direct parents, or a non-empty ancestor set
+#[kani::proof]
+#[kani::stub(std::hash::RandomState::new, stub_random_state)]
+#[kani::unwind(6)]
+fn c01_parents_cached_truth_table() {
+    use crate::term::group::verif_kani::subset;
+    let ids: [u32; 2] = [4, 9];
+    let mp: u8 = kani::any();
+    let ma: u8 = kani::any();
+    kani::assume(mp < 4 && ma < 4);
+    let t = term_lean(3, subset(&ids, mp), subset(&ids, ma), HpoGroup::default());
+    assert!(t.parents_cached() == (mp == 0 || ma != 0));
+    kani::cover!(mp != 0 && ma == 0, "parents known, closure not computed yet");
+    core::mem::forget(t);
+}
+
+/// add_parent / add_child record exactly the given id on exactly that side
+#[kani::proof]
+#[kani::stub(std::hash::RandomState::new, stub_random_state)]
+#[kani::unwind(6)]
+fn c01_term_add_parent_add_child() {
+    let p: u32 = kani::any();
+    let c: u32 = kani::any();
+    let mut t = term_lean(3, HpoGroup::default(), HpoGroup::default(), HpoGroup::default());
+    t.add_parent(p);
+    t.add_child(c);
+    t.add_parent(p);
+    assert!(t.parents().len() == 1 && t.parents().contains(&HpoTermId::from_u32(p)));
+    assert!(t.children().len() == 1 && t.children().contains(&HpoTermId::from_u32(c)));
+    assert!(t.all_parents().is_empty(), "the closure is only written by the cache step");
+    kani::cover!(p == c, "same id on both sides");
+    core::mem::forget(t);
+}
